@@ -105,6 +105,7 @@ EXH_THOROUGH = [("lt", 3, 5, 3), ("gt", 3, 5, 3), ("half", 3, 4, 4), ("lt", 4, 3
 
 class C08(flow.Spec):
     pid = "C08"
+    source_files = ('tlx/algorithm/multisequence_partition.hpp', 'tlx/algorithm/multisequence_selection.hpp', 'tlx/math/round_to_power_of_two.hpp')
     harness = dict(name="c08", sources=["c08.cpp"])
     nontrivial_rule = ("a `part` operation is non-trivial when 0 < rank < N, there are >= 2 runs and an element "
                        "equivalent to the last left element of one run is the first right element of another run "
@@ -173,6 +174,8 @@ class C08(flow.Spec):
             for i, f in enumerate(fails[:20]):
                 cs.append([f"case exh{i}", f])
         n = 6000 if tier == "quick" else 40000
+        if tier != "quick" and ctx.tier == "quick":
+            n = 15000         # deeper validation requested by the flow (modelled sources changed) inside the quick tier
         for i in range(n):
             cs.append(gen_case(rng, f"{round_no}_{i}", tier))
         return cs
